@@ -46,8 +46,9 @@ def main():
     results = []
     for d in dirs:
         d = os.path.abspath(d)
-        name = "-".join(d.rstrip("/").split("/")[-2:])
         meta = json.load(open(os.path.join(d, "meta.json"))) if os.path.exists(os.path.join(d, "meta.json")) else {}
+        parts = d.rstrip("/").split("/")
+        name = f"{meta.get('property', parts[-3])}-{parts[-1]}" if "_seed" in parts else "-".join(parts[-2:])
         wt = tempfile.mkdtemp(prefix="seedwt_")
         os.rmdir(wt)
         res = {"seed": name, "property": meta.get("property")}
@@ -57,6 +58,7 @@ def main():
                 res["error"] = "worktree: " + out[-200:]
                 results.append(res)
                 continue
+            shutil.copy("/repo/urwid/version.py", os.path.join(wt, "urwid", "version.py"))
             env = {"PYTHONPATH": wt}
             rc0, o0 = sh(f"{PY} {d}/demo.py", cwd=wt, env=env, timeout=300)
             res["demo_clean_rc"] = rc0
@@ -76,10 +78,20 @@ def main():
             fired = {}
             props = only or sorted(registry.CLAIMED)
             for pid in props:
-                rc, out = sh(f"{PY} -m verif.check {pid} --root {wt} --no-evidence", cwd=HERE, timeout=300)
+                rc, out = sh(f"{PY} -m verif.check {pid} --root {wt} --no-evidence --json", cwd=HERE, timeout=300)
                 if rc != 0:
-                    lines = [l.strip() for l in out.splitlines() if l.strip().startswith(("urwid/", "ANALYSIS-ERROR")) or "[" in l and "]" in l and l.startswith("    ")]
-                    fired[pid] = {"rc": rc, "lines": lines[:4]}
+                    keys, lines = [], []
+                    for l in out.splitlines():
+                        if l.startswith("{"):
+                            try:
+                                js = json.loads(l)
+                                keys = [f["key"] for f in js["violations"]]
+                                lines = [f"{f['file']}:{f['line']}: [{f['rule']}] {f['where']}: {f['message']}" for f in js["violations"]]
+                            except ValueError:
+                                pass
+                        elif l.startswith("ANALYSIS-ERROR"):
+                            lines.append(l)
+                    fired[pid] = {"rc": rc, "keys": keys, "lines": lines[:4]}
             res["fired"] = fired
             res["detected_by_own_property"] = meta.get("property") in fired and fired[meta.get("property")]["rc"] == 1
             res["detected_by_any"] = any(v["rc"] == 1 for v in fired.values())
@@ -107,6 +119,7 @@ def main():
                 "how": "tools/seedtest.py: scratch worktree of /repo HEAD, PYTHONPATH=<worktree> /venv/bin/python demo.py before and after `git apply patch.diff`",
             }
             meta["checks_fired"] = {k: v for k, v in res.get("fired", {}).items()}
+            meta["detected_by"] = {k: v["keys"] for k, v in res.get("fired", {}).items() if v["rc"] == 1 and v["keys"]}
             meta["detected_by_own_property_check"] = res.get("detected_by_own_property")
             json.dump(meta, open(os.path.join(dst, "meta.json"), "w"), indent=1)
     json.dump(results, open(os.path.join(tempfile.gettempdir(), "seedtest_last.json"), "w"), indent=1)
